@@ -188,6 +188,25 @@ OffsetsFor(m, root) ==
 
 ZeroOffsets(m) == [t \in 1..Len(m.tracks) |-> [c \in 1..Len(m.tracks[t].tbl.co.entries) |-> <<>>]]
 
+\* ---- header-only rendering for movies whose media data is too large to materialise ----------
+\* ftyp + moov + the 16-byte header of a media data box that declares the whole payload; the file
+\* is meant to be read through a sparse stream of length `total` (absent bytes read as zero).
+\* Offsets and lengths are Bigs throughout.
+HdrTree(m, offs) == LET r == PlainTree([m EXCEPT !.order = <<>>], offs) IN [r EXCEPT !.kids = <<r.kids[1], r.kids[2]>>]
+RECURSIVE BigPrefixR(_, _, _, _)
+BigPrefixR(lens, i, cur, acc) == IF i > Len(lens) THEN acc ELSE BigPrefixR(lens, i + 1, Add(cur, lens[i]), Append(acc, cur))
+RenderPlainSparse(m) ==
+  Let(HdrTree(m, ZeroOffsets(m)), LAMBDA r0 :
+  Let(FromInt(NodeSize(r0.kids[1]) + NodeSize(r0.kids[2]) + 16), LAMBDA p0 :
+  Let([t \in 1..Len(m.tracks) |-> ChunkLensBig(m.tracks[t].tbl)], LAMBDA cls :
+  Let([i \in 1..Len(m.order) |-> cls[m.order[i][1]][m.order[i][2]]], LAMBDA lens :
+  Let(BigPrefixR(lens, 1, p0, <<>>), LAMBDA starts :
+  Let([t \in 1..Len(m.tracks) |-> [c \in 1..Len(m.tracks[t].tbl.co.entries) |->
+          starts[CHOOSE i \in 1..Len(m.order) : m.order[i] = <<t, c>>]]], LAMBDA offs :
+      [ file  |-> EncFile(HdrTree(m, offs)) \o <<0, 0, 0, 1>> \o MDAT \o Pad(Add(Sum(lens), <<16>>), 8),
+        total |-> Add(p0, Sum(lens)) ]))))))
+
+
 \* two passes: sizes do not depend on the offset values, only on their count and width
 RenderPlainTree(m0, ops) ==
   Let(m0, LAMBDA m :
